@@ -169,7 +169,7 @@ class ClassicalBasisSimState(SimulationState[ClassicalBasisState]):
             basis = self._state.basis
             original_values = [basis[q] for q in mapped_qubits]
             for i, q in enumerate(mapped_qubits):
-                basis[perm[i]] = original_values[i]
+                basis[mapped_qubits[perm[i]]] = original_values[i]
         else:
             raise ValueError(
                 f'{gate} is not one of X, SWAP, QubitPermutationGate; a controlled version '
